@@ -41,6 +41,17 @@ Ltac b2p :=
 
 Section Proofs.
 Variable sig_ok : N -> N -> N -> N -> bool.
+Variable K0 : list crl.       (* the CRL cache when validation starts *)
+
+Notation REVOKED := c_CRL_CHECK_REVOKED_AND_AUTHENTICATED.
+Notation issued_by := (issued_by sig_ok K0).
+Notation step := (step sig_ok K0).
+Notation steps := (steps sig_ok K0).
+Notation step_weak := (step_weak sig_ok K0).
+Notation steps_weak := (steps_weak sig_ok K0).
+Notation issued_by_weak := (issued_by_weak sig_ok K0).
+Notation not_revoked := (not_revoked K0).
+Notation not_listed := (not_listed K0).
 
 Notation DATE := n_PS_CERT_AUTH_FAIL_DATE_FLAG.
 Notation PASS := c_PS_CERT_AUTH_PASS.
@@ -99,10 +110,98 @@ Proof.
   - inversion H; subst. left. auto.
 Qed.
 
-(* flags never change on a path that returns early; the status only moves away from 0 *)
-Lemma auth_one_some_fl : forall fx self sc ic s rc s', auth_one sig_ok fx self sc ic s = (Some rc, s') -> fl s' = fl s.
+
+(* ------------------------------------------------------------------------------------------ *)
+(* the CRL cache during a validation: entries keep their place and their content; the
+   authenticated flag is only ever switched on, the expired flag only when nextUpdate is over *)
+Definition crl_le (r0 r : crl) : Prop :=
+  r_iss r0 = r_iss r /\ r_serials r0 = r_serials r /\ r_next r0 = r_next r /\
+  (r_auth r0 = true -> r_auth r = true) /\
+  (r_expired r = true -> r_expired r0 = true \/ (r_next r0 < 0)%Z).
+Definition evolves (K : list crl) : Prop := Forall2 crl_le K0 K.
+
+Lemma crl_le_refl : forall r, crl_le r r.
+Proof. intros r. unfold crl_le. repeat split; auto. Qed.
+
+Lemma evolves_refl : evolves K0.
+Proof. unfold evolves. induction K0; constructor; auto using crl_le_refl. Qed.
+
+Lemma authenticate_static : forall p r,
+  let r' := snd (crl_authenticate sig_ok p r) in
+  r_iss r' = r_iss r /\ r_serials r' = r_serials r /\ r_next r' = r_next r /\ r_expired r' = r_expired r.
 Proof.
-  intros fx self sc ic s rc s' H. unfold auth_one in H.
+  intros p r. unfold crl_authenticate.
+  repeat match goal with |- context[if ?b then _ else _] => destruct b end; cbn; auto.
+Qed.
+
+Lemma lookup_evolves : forall K sc p, evolves K -> evolves (snd (crl_lookup sig_ok K sc p)).
+Proof.
+  unfold evolves. intros K sc p H. induction H as [|r0 r l0 l Hr Hl IH]; [constructor|].
+  cbn [crl_lookup].
+  destruct (r_iss r =? c_iss sc)%N.
+  - destruct Hr as [E1 [E2 [E3 [E4 E5]]]].
+    assert (L1 : crl_le r0 (if (r_next r <? 0)%Z then set_expired r else r)).
+    { destruct (r_next r <? 0)%Z eqn:B; [|repeat split; auto].
+      apply Z.ltb_lt in B. unfold crl_le. cbn. repeat split; auto. intros _. right. rewrite E3. exact B. }
+    set (r1 := if (r_next r <? 0)%Z then set_expired r else r) in *.
+    destruct (r_expired r1); cbn [snd]; [constructor; auto|].
+    constructor; [|exact Hl].
+    destruct p as [p|]; [|exact L1].
+    destruct (r_auth r1) eqn:A; [exact L1|].
+    destruct L1 as [F1 [F2 [F3 [F4 F5]]]].
+    destruct (authenticate_static p r1) as [S1 [S2 [S3 S4]]].
+    unfold crl_le. rewrite S1, S2, S3, S4. repeat split; auto.
+    intros X. specialize (F4 X). rewrite F4 in A. discriminate A.
+  - destruct (crl_lookup sig_ok l sc p) as [st' K''] eqn:L. cbn [snd] in *. constructor; auto.
+Qed.
+
+Lemma lookup_revoked : forall K sc p, evolves K -> revoked_in K0 sc ->
+  fst (crl_lookup sig_ok K sc p) = REVOKED.
+Proof.
+  unfold evolves, revoked_in, crl_for. intros K sc p H [r [Hf [Ha [[Hc1 Hc2] Hl]]]].
+  induction H as [|r0 r' l0 l Hr Hl' IH]; [discriminate Hf|].
+  cbn [find] in Hf. cbn [crl_lookup].
+  destruct Hr as [E1 [E2 [E3 [E4 E5]]]]. rewrite <- E1.
+  destruct (r_iss r0 =? c_iss sc)%N.
+  - inversion Hf; subst r0. clear Hf IH.
+    assert (B : (r_next r' <? 0)%Z = false) by (apply Z.ltb_ge; rewrite <- E3; exact Hc2).
+    rewrite B.
+    assert (X : r_expired r' = false).
+    { destruct (r_expired r') eqn:Y; auto. destruct (E5 eq_refl) as [Z1|Z1]; [rewrite Z1 in Hc1; discriminate|lia]. }
+    rewrite X. rewrite (E4 Ha).
+    assert (R2 : match p with Some _ => r' | None => r' end = r') by (destruct p; reflexivity).
+    rewrite R2. cbn [fst]. rewrite <- E2. unfold listed in Hl. rewrite Hl, (E4 Ha). reflexivity.
+  - destruct (crl_lookup sig_ok l sc p) as [st' K''] eqn:L. cbn [fst] in *. apply IH. exact Hf.
+Qed.
+
+Lemma lookup_not_listed : forall K sc p, evolves K -> not_listed sc ->
+  fst (crl_lookup sig_ok K sc p) <> REVOKED.
+Proof.
+  unfold evolves, ChainSpec.not_listed, crl_for. intros K sc p H HN.
+  induction H as [|r0 r' l0 l Hr Hl' IH].
+  - cbn. destruct (c_crldist sc); discriminate.
+  - cbn [find] in HN. cbn [crl_lookup].
+    destruct Hr as [E1 [E2 [E3 [E4 E5]]]]. rewrite <- E1.
+    destruct (r_iss r0 =? c_iss sc)%N.
+    + specialize (HN r0 eq_refl). unfold listed in HN.
+      set (r1 := if (r_next r' <? 0)%Z then set_expired r' else r').
+      destruct (r_expired r1); [cbn; discriminate|]. cbn [fst].
+      assert (S : forall r2, r_serials r2 = r_serials r0 ->
+                  crl_status (existsb (serial_eq (c_serial sc)) (r_serials r2)) (r_auth r2) <> REVOKED).
+      { intros r2 E. rewrite E. destruct (existsb (serial_eq (c_serial sc)) (r_serials r0)); [contradiction|].
+        destruct (r_auth r2); discriminate. }
+      apply S.
+      assert (S1 : r_serials r1 = r_serials r0) by (unfold r1; destruct (r_next r' <? 0)%Z; cbn; auto).
+      destruct p as [p|]; [|exact S1].
+      destruct (r_auth r1); [exact S1|].
+      destruct (authenticate_static p r1) as [_ [S2 _]]. rewrite S2. exact S1.
+    + destruct (crl_lookup sig_ok l sc p) as [st' K''] eqn:L. cbn [fst] in *. apply IH. exact HN.
+Qed.
+
+(* flags never change on a path that returns early; the status only moves away from 0 *)
+Lemma auth_one_some_fl : forall fx self sc ic s rs rc s', auth_one sig_ok fx self sc ic s rs = (Some rc, s') -> fl s' = fl s.
+Proof.
+  intros fx self sc ic s rs rc s' H. unfold auth_one in H.
   repeat match type of H with
   | context[if ?b then _ else _] => destruct b
   end; try (inversion H; subst; reflexivity).
@@ -113,10 +212,10 @@ Proof.
 Qed.
 
 (* every early return carries a negative code other than PS_MEM_FAIL *)
-Lemma auth_one_some_neg : forall fx self sc ic s rc s', auth_one sig_ok fx self sc ic s = (Some rc, s') ->
+Lemma auth_one_some_neg : forall fx self sc ic s rs rc s', auth_one sig_ok fx self sc ic s rs = (Some rc, s') ->
   (rc < 0)%Z /\ rc <> c_PS_MEM_FAIL.
 Proof.
-  intros fx self sc ic s rc s' H. unfold auth_one in H.
+  intros fx self sc ic s rs rc s' H. unfold auth_one in H.
   repeat match type of H with
   | context[if ?b then _ else _] => destruct b
   end; try discriminate H; try (inversion H; subst; split; [reflexivity|discriminate]).
@@ -128,19 +227,19 @@ Qed.
 
 (* ------------------------------------------------------------------------------------------ *)
 (* soundness of one authentication step (repaired code) *)
-Lemma auth_one_pass : forall self sc ic s s',
-  auth_one sig_ok true self sc ic s = (None, s') -> st s = 0%Z -> st s' = PASS ->
+Lemma auth_one_pass : forall self sc ic s rs s',
+  auth_one sig_ok true self sc ic s rs = (None, s') -> st s = 0%Z -> st s' = PASS ->
   has_flag (fl s) DATE = false /\ fl s' = fl s /\
   (self = false -> parsed ic -> is_ca ic) /\
-  ((c_iss sc = c_subj ic /\ sig_ok (c_key ic) (c_tbs sc) (c_sig sc) (c_alg sc) = true /\
-    ku_certsign ic /\ not_revoked sc) \/
+  ((c_iss sc = c_subj ic /\ bc_fail self ic = false /\ sig_ok (c_key ic) (c_tbs sc) (c_sig sc) (c_alg sc) = true /\
+    ku_certsign ic /\ rs <> REVOKED) \/
    (self = false /\ same_cert sc ic)).
 Proof.
-  intros self sc ic s s' H H0 HP. unfold auth_one in H.
+  intros self sc ic s rs s' H H0 HP. unfold auth_one in H.
   assert (Hne : st s <> PASS) by (rewrite H0; intro X; symmetry in X; exact (pass_nonzero X)).
-  bdestr ((c_ver ic >? 1)%Z && negb (c_ca ic =? c_CA_TRUE)%Z && negb self); [inversion H|].
+  bdestr (bc_fail self ic); [inversion H|].
   assert (CA : self = false -> parsed ic -> is_ca ic).
-  { intros Hs Hp. unfold parsed in Hp. unfold is_ca. subst self.
+  { intros Hs Hp. unfold parsed in Hp. unfold is_ca. subst self. unfold bc_fail in B.
     rewrite Hp in B. cbn in B. rewrite andb_true_r in B. b2p. exact B. }
   bdestr (negb (c_iss sc =? c_subj ic)%N).
   - (* names differ: only the same-certificate shortcut gets through *)
@@ -149,7 +248,7 @@ Proof.
     rewrite tail_fl. repeat split; auto.
     right. unfold shortcut in B1. b2p. split; [auto|]. split; auto.
   - b2p.
-    bdestr (f_USE_CRL && (c_rev sc =? c_CRL_CHECK_REVOKED_AND_AUTHENTICATED)%Z); [inversion H|].
+    bdestr (f_USE_CRL && (rs =? c_CRL_CHECK_REVOKED_AND_AUTHENTICATED)%Z); [inversion H|].
     bdestr (negb (sig_ok (c_key ic) (c_tbs sc) (c_sig sc) (c_alg sc))); [inversion H|].
     b2p.
     destruct (ku_check ic (aki_check sc ic s)) as [r s2] eqn:K.
@@ -161,7 +260,7 @@ Proof.
         rewrite tail_fl. repeat split; auto.
         left. repeat split; auto.
         -- unfold ku_certsign. intros Hk. destruct K2 as [K2|[K2 _]]; [exact K2|contradiction].
-        -- unfold not_revoked. cbn in B1. b2p. exact B1.
+        -- cbn in B1. b2p. exact B1.
       * exfalso. rewrite tail_nonzero in HP by (cbn; exact authkey_nonzero).
         exact (authkey_not_pass HP).
     + exfalso. rewrite tail_nonzero in HP by (rewrite K; exact ext_nonzero).
@@ -169,25 +268,95 @@ Proof.
 Qed.
 
 (* what a fall-through (return code 0) alone guarantees *)
-Lemma auth_one_none : forall self sc ic s s',
-  auth_one sig_ok true self sc ic s = (None, s') ->
+Lemma auth_one_none : forall self sc ic s rs s',
+  auth_one sig_ok true self sc ic s rs = (None, s') ->
   (self = false -> parsed ic -> is_ca ic) /\
-  ((c_iss sc = c_subj ic /\ sig_ok (c_key ic) (c_tbs sc) (c_sig sc) (c_alg sc) = true /\ not_revoked sc) \/
+  ((c_iss sc = c_subj ic /\ bc_fail self ic = false /\ sig_ok (c_key ic) (c_tbs sc) (c_sig sc) (c_alg sc) = true /\ rs <> REVOKED) \/
    (self = false /\ same_cert sc ic)).
 Proof.
-  intros self sc ic s s' H. unfold auth_one in H.
-  bdestr ((c_ver ic >? 1)%Z && negb (c_ca ic =? c_CA_TRUE)%Z && negb self); [inversion H|].
+  intros self sc ic s rs s' H. unfold auth_one in H.
+  bdestr (bc_fail self ic); [inversion H|].
   assert (CA : self = false -> parsed ic -> is_ca ic).
-  { intros Hs Hp. unfold parsed in Hp. unfold is_ca. subst self.
+  { intros Hs Hp. unfold parsed in Hp. unfold is_ca. subst self. unfold bc_fail in B.
     rewrite Hp in B. cbn in B. rewrite andb_true_r in B. b2p. exact B. }
   split; auto.
   bdestr (negb (c_iss sc =? c_subj ic)%N).
   - bdestr (shortcut true self sc ic); inversion H; subst.
     right. unfold shortcut in B1. b2p. split; [auto|]. split; auto.
   - b2p.
-    bdestr (f_USE_CRL && (c_rev sc =? c_CRL_CHECK_REVOKED_AND_AUTHENTICATED)%Z); [inversion H|].
+    bdestr (f_USE_CRL && (rs =? c_CRL_CHECK_REVOKED_AND_AUTHENTICATED)%Z); [inversion H|].
     bdestr (negb (sig_ok (c_key ic) (c_tbs sc) (c_sig sc) (c_alg sc))); [inversion H|].
-    b2p. left. repeat split; auto. unfold not_revoked. cbn in B1. b2p. exact B1.
+    b2p. left. repeat split; auto. cbn in B1. b2p. exact B1.
+Qed.
+
+(* ---- the same step with the cache consultation in place *)
+Lemma auth_one_k_evolves : forall fx self sc ic s p k r s' k',
+  auth_one_k sig_ok fx self sc ic s p k = (r, s', k') -> evolves (k_cache k) -> evolves (k_cache k').
+Proof.
+  intros fx self sc ic s p k r s' k' H E. unfold auth_one_k in H.
+  destruct (f_USE_CRL && reaches_crl self sc ic).
+  - destruct (crl_lookup sig_ok (k_cache k) sc p) as [rs K'] eqn:L.
+    inversion H; subst. cbn. pose proof (lookup_evolves _ sc p E) as X. rewrite L in X. exact X.
+  - inversion H; subst. exact E.
+Qed.
+
+Lemma auth_one_k_some : forall fx self sc ic s p k rc s' k',
+  auth_one_k sig_ok fx self sc ic s p k = (Some rc, s', k') -> (rc < 0)%Z /\ rc <> c_PS_MEM_FAIL /\ fl s' = fl s.
+Proof.
+  intros fx self sc ic s p k rc s' k' H. unfold auth_one_k in H.
+  destruct (f_USE_CRL && reaches_crl self sc ic).
+  - destruct (crl_lookup sig_ok (k_cache k) sc p) as [rs K'].
+    inversion H as [[H1 H2]]. destruct (auth_one_some_neg _ _ _ _ _ _ _ _ H1). split; auto. split; auto.
+    eapply auth_one_some_fl; eauto.
+  - inversion H as [[H1 H2]]. destruct (auth_one_some_neg _ _ _ _ _ _ _ _ H1). split; auto. split; auto.
+    eapply auth_one_some_fl; eauto.
+Qed.
+
+Lemma reaches_intro : forall self sc ic, c_iss sc = c_subj ic -> bc_fail self ic = false -> reaches_crl self sc ic = true.
+Proof. intros self sc ic E B. unfold reaches_crl. rewrite B, E, N.eqb_refl. reflexivity. Qed.
+
+Lemma auth_one_k_pass : forall self sc ic s p k s' k',
+  auth_one_k sig_ok true self sc ic s p k = (None, s', k') -> st s = 0%Z -> st s' = PASS -> evolves (k_cache k) ->
+  has_flag (fl s) DATE = false /\ fl s' = fl s /\
+  (self = false -> parsed ic -> is_ca ic) /\
+  ((c_iss sc = c_subj ic /\ sig_ok (c_key ic) (c_tbs sc) (c_sig sc) (c_alg sc) = true /\
+    ku_certsign ic /\ not_revoked sc) \/
+   (self = false /\ same_cert sc ic)).
+Proof.
+  intros self sc ic s p k s' k' H H0 HP E. unfold auth_one_k, f_USE_CRL in H. cbn [andb] in H.
+  destruct (reaches_crl self sc ic) eqn:R.
+  - destruct (crl_lookup sig_ok (k_cache k) sc p) as [rs K'] eqn:L.
+    inversion H as [[H1 H2]].
+    destruct (auth_one_pass _ _ _ _ _ _ H1 H0 HP) as [A1 [A2 [A3 A4]]].
+    repeat split; auto.
+    destruct A4 as [[B1 [B2 [B3 [B4 B5]]]]|A4]; [left|right; exact A4].
+    repeat split; auto.
+    intros RV. apply B5. pose proof (lookup_revoked _ sc p E RV) as X. rewrite L in X. exact X.
+  - inversion H as [[H1 H2]].
+    destruct (auth_one_pass _ _ _ _ _ _ H1 H0 HP) as [A1 [A2 [A3 A4]]].
+    repeat split; auto.
+    destruct A4 as [[B1 [B2 _]]|A4]; [|right; exact A4].
+    rewrite (reaches_intro _ _ _ B1 B2) in R. discriminate R.
+Qed.
+
+Lemma auth_one_k_none : forall self sc ic s p k s' k',
+  auth_one_k sig_ok true self sc ic s p k = (None, s', k') -> evolves (k_cache k) ->
+  (self = false -> parsed ic -> is_ca ic) /\
+  ((c_iss sc = c_subj ic /\ sig_ok (c_key ic) (c_tbs sc) (c_sig sc) (c_alg sc) = true /\ not_revoked sc) \/
+   (self = false /\ same_cert sc ic)).
+Proof.
+  intros self sc ic s p k s' k' H E. unfold auth_one_k, f_USE_CRL in H. cbn [andb] in H.
+  destruct (reaches_crl self sc ic) eqn:R.
+  - destruct (crl_lookup sig_ok (k_cache k) sc p) as [rs K'] eqn:L.
+    inversion H as [[H1 H2]].
+    destruct (auth_one_none _ _ _ _ _ _ H1) as [A3 A4]. split; auto.
+    destruct A4 as [[B1 [B2 [B3 B5]]]|A4]; [left|right; exact A4].
+    repeat split; auto.
+    intros RV. apply B5. pose proof (lookup_revoked _ sc p E RV) as X. rewrite L in X. exact X.
+  - inversion H as [[H1 H2]].
+    destruct (auth_one_none _ _ _ _ _ _ H1) as [A3 A4]. split; auto.
+    destruct A4 as [[B1 [B2 _]]|A4]; [|right; exact A4].
+    rewrite (reaches_intro _ _ _ B1 B2) in R. discriminate R.
 Qed.
 
 Lemma pathlen_check_ok : forall ic sc pl, pathlen_check true ic sc pl = true -> pathlen_ok sc ic pl.
@@ -238,29 +407,30 @@ Qed.
 
 (* ------------------------------------------------------------------------------------------ *)
 (* the walk over the supplied chain *)
-Lemma walk_sound : forall rest pl sc idx f pl' below top,
-  walk sig_ok true pl sc (reset sc) rest idx f = inr (pl', below, top) ->
-  Forall parsed rest -> Forall is_pass below ->
-  steps sig_ok (sc :: rest) /\ pathlens pl (sc :: rest) /\ top = last rest sc /\
-  pl' = (pl + Z.of_nat (length rest))%Z /\ Forall date_clear (removelast (sc :: rest)).
+Lemma walk_sound : forall rest pl sc idx f k pl' below top k',
+  walk sig_ok true pl sc (reset sc) rest idx f k = (inr (pl', below, top), k') ->
+  evolves (k_cache k) -> Forall parsed rest -> Forall is_pass below ->
+  steps (sc :: rest) /\ pathlens pl (sc :: rest) /\ top = last rest sc /\
+  pl' = (pl + Z.of_nat (length rest))%Z /\ Forall date_clear (removelast (sc :: rest)) /\ evolves (k_cache k').
 Proof.
-  induction rest as [|ic rest IH]; intros pl sc idx f pl' below top H HP HB.
+  induction rest as [|ic rest IH]; intros pl sc idx f k pl' below top k' H E HP HB.
   - cbn in H. inversion H; subst. cbn. repeat split; auto. lia.
   - cbn [walk] in H.
-    destruct (auth_one sig_ok true false sc ic (reset sc)) as [r s'] eqn:A.
+    destruct (auth_one_k sig_ok true false sc ic (reset sc) (Some ic) k) as [[r s'] k1] eqn:A.
     bdestr ((match r with Some rc => rc | None => c_PS_SUCCESS end <? c_PS_SUCCESS)%Z); [inversion H|].
     bdestr (negb (pathlen_check true ic sc pl)); [inversion H|]. b2p.
     destruct (walk sig_ok true (pl + 1) ic (reset ic) rest (S idx)
-               match r with Some _ => f | None => FChain (S idx) end) as [[[rc' l] f'']|[[pl'' l] top']] eqn:W;
+               match r with Some _ => f | None => FChain (S idx) end k1) as [[[[rc' l] f'']|[[pl'' l] top']] k2] eqn:W;
       inversion H; subst; clear H.
     inversion HB as [|s0 l0 Hs' Hl]; subst.
     inversion HP as [|c0 r0 Hic Hrest]; subst.
+    pose proof (auth_one_k_evolves _ _ _ _ _ _ _ _ _ _ A E) as E1.
     destruct r as [rc|].
-    + exfalso. apply auth_one_some_neg in A. destruct A as [A _]. unfold c_PS_SUCCESS in B. lia.
-    + apply auth_one_pass in A; auto. destruct A as [HD [_ [CA L]]].
-      destruct (IH _ _ _ _ _ _ _ W Hrest Hl) as [S1 [P1 [T1 [PL1 D1]]]].
+    + exfalso. apply auth_one_k_some in A. destruct A as [A _]. unfold c_PS_SUCCESS in B. lia.
+    + apply auth_one_k_pass in A; auto. destruct A as [HD [_ [CA L]]].
+      destruct (IH _ _ _ _ _ _ _ _ _ W E1 Hrest Hl) as [S1 [P1 [T1 [PL1 [D1 E2]]]]].
       repeat split.
-      * unfold step, issued_by. destruct L as [[L1 [L2 [L3 L4]]]|[_ L]]; [left|right; exact L].
+      * unfold ChainSpec.step, ChainSpec.issued_by. destruct L as [[L1 [L2 [L3 L4]]]|[_ L]]; [left|right; exact L].
         repeat split; auto.
       * exact S1.
       * apply pathlen_check_ok. exact B0.
@@ -269,23 +439,25 @@ Proof.
       * subst pl'. cbn [length]. lia.
       * change (removelast (sc :: ic :: rest)) with (sc :: removelast (ic :: rest)).
         constructor; [exact HD|exact D1].
+      * exact E2.
 Qed.
 
 (* ------------------------------------------------------------------------------------------ *)
 (* the loop over the trust anchors *)
-Lemma anchor_loop_sound : forall anchors rv leaf pl sc s i rc s' eku f,
-  anchor_loop sig_ok true rv leaf pl sc s anchors i = (rc, s', eku, f) ->
-  rc = 0%Z -> is_pass s' -> fl s = c_fl0 sc -> Forall parsed anchors ->
-  exists a, In a anchors /\ step sig_ok sc a /\ pathlen_ok sc a pl /\ date_clear sc /\ eku = false.
+Lemma anchor_loop_sound : forall anchors rv leaf pl sc s i k rc s' eku f k',
+  anchor_loop sig_ok true rv leaf pl sc s anchors i k = (rc, s', eku, f, k') ->
+  rc = 0%Z -> is_pass s' -> fl s = c_fl0 sc -> evolves (k_cache k) -> Forall parsed anchors ->
+  exists a, In a anchors /\ step sc a /\ pathlen_ok sc a pl /\ date_clear sc /\ eku = false.
 Proof.
-  induction anchors as [|a more IH]; intros rv leaf pl sc s i rc s' eku f H Hrc HP Hfl HPa.
+  induction anchors as [|a more IH]; intros rv leaf pl sc s i k rc s' eku f k' H Hrc HP Hfl E HPa.
   - cbn in H. inversion H; subst. discriminate.
   - cbn [anchor_loop] in H.
-    destruct (auth_one sig_ok true false sc a (set_st s 0)) as [r s1] eqn:A.
+    destruct (auth_one_k sig_ok true false sc a (set_st s 0) None k) as [[r s1] k1] eqn:A.
     inversion HPa as [|a0 m0 Ha Hmore]; subst a0 m0.
+    pose proof (auth_one_k_evolves _ _ _ _ _ _ _ _ _ _ A E) as E1.
     bdestr ((match r with Some rc0 => rc0 | None => c_PS_SUCCESS end =? c_PS_SUCCESS)%Z).
     + destruct r as [rc0|].
-      * exfalso. b2p. apply auth_one_some_neg in A. destruct A as [A _]. unfold c_PS_SUCCESS in B. lia.
+      * exfalso. b2p. apply auth_one_k_some in A. destruct A as [A _]. unfold c_PS_SUCCESS in B. lia.
       * bdestr (negb (pathlen_check true a sc pl)).
         { inversion H; subst. discriminate. }
         bdestr (rv && (c_date_now a <? 0)%Z).
@@ -295,103 +467,106 @@ Proof.
         bdestr (eku_bad leaf).
         { inversion H; subst. discriminate. }
         inversion H; subst. b2p.
-        apply auth_one_pass in A; auto. destruct A as [HD [_ [CA L]]].
+        apply auth_one_k_pass in A; auto. destruct A as [HD [_ [CA L]]].
         exists a. split; [left; reflexivity|].
         cbn in HD. rewrite Hfl in HD.
         repeat split; auto.
-        -- unfold step, issued_by. destruct L as [[L1 [L2 [L3 L4]]]|[_ L]]; [left|right; exact L].
+        -- unfold ChainSpec.step, ChainSpec.issued_by. destruct L as [[L1 [L2 [L3 L4]]]|[_ L]]; [left|right; exact L].
            repeat split; auto.
         -- apply pathlen_check_ok. exact B0.
     + bdestr ((match r with Some rc0 => rc0 | None => c_PS_SUCCESS end =? c_PS_MEM_FAIL)%Z).
       * exfalso. b2p. destruct r as [rc0|]; [|discriminate B0].
-        apply auth_one_some_neg in A. destruct A as [_ A]. contradiction.
+        apply auth_one_k_some in A. destruct A as [_ [A _]]. contradiction.
       * assert (Hfl1 : fl s1 = c_fl0 sc).
         { destruct r as [rc0|].
-          - apply auth_one_some_fl in A. rewrite A. cbn. exact Hfl.
+          - apply auth_one_k_some in A. destruct A as [_ [_ A]]. rewrite A. cbn. exact Hfl.
           - b2p. contradiction. }
-        destruct (IH _ _ _ _ _ _ _ _ _ _ H Hrc HP Hfl1 Hmore) as [a' [I R]].
+        destruct (IH _ _ _ _ _ _ _ _ _ _ _ _ H Hrc HP Hfl1 E1 Hmore) as [a' [I R]].
         exists a'. split; [right; exact I|exact R].
 Qed.
 
-Lemma anchor_loop_eku : forall anchors fx rv leaf pl sc s i rc s' f,
-  anchor_loop sig_ok fx rv leaf pl sc s anchors i = (rc, s', true, f) -> rc = c_PS_CERT_AUTH_FAIL_EXTENSION.
+Lemma anchor_loop_eku : forall anchors fx rv leaf pl sc s i k rc s' f k',
+  anchor_loop sig_ok fx rv leaf pl sc s anchors i k = (rc, s', true, f, k') -> rc = c_PS_CERT_AUTH_FAIL_EXTENSION.
 Proof.
-  induction anchors as [|a more IH]; intros fx rv leaf pl sc s i rc s' f H.
+  induction anchors as [|a more IH]; intros fx rv leaf pl sc s i k rc s' f k' H.
   - cbn in H. inversion H.
   - cbn [anchor_loop] in H.
-    destruct (auth_one sig_ok fx false sc a (set_st s 0)) as [r s1].
+    destruct (auth_one_k sig_ok fx false sc a (set_st s 0) None k) as [[r s1] k1].
     repeat match type of H with context[if ?b then _ else _] => destruct b end;
       try (inversion H; subst; reflexivity); try (inversion H; fail).
     eapply IH; eauto.
 Qed.
 
 (* return code 0 from the anchor loop alone: the cryptographic link *)
-Lemma anchor_loop_rc0 : forall anchors rv leaf pl sc s i s' eku f,
-  anchor_loop sig_ok true rv leaf pl sc s anchors i = (0%Z, s', eku, f) -> Forall parsed anchors ->
-  exists a, In a anchors /\ step_weak sig_ok sc a /\ pathlen_ok sc a pl.
+Lemma anchor_loop_rc0 : forall anchors rv leaf pl sc s i k s' eku f k',
+  anchor_loop sig_ok true rv leaf pl sc s anchors i k = (0%Z, s', eku, f, k') -> evolves (k_cache k) -> Forall parsed anchors ->
+  exists a, In a anchors /\ step_weak sc a /\ pathlen_ok sc a pl.
 Proof.
-  induction anchors as [|a more IH]; intros rv leaf pl sc s i s' eku f H HPa.
+  induction anchors as [|a more IH]; intros rv leaf pl sc s i k s' eku f k' H E HPa.
   - cbn in H. inversion H.
   - cbn [anchor_loop] in H.
-    destruct (auth_one sig_ok true false sc a (set_st s 0)) as [r s1] eqn:A.
+    destruct (auth_one_k sig_ok true false sc a (set_st s 0) None k) as [[r s1] k1] eqn:A.
     inversion HPa as [|a0 m0 Ha Hmore]; subst a0 m0.
+    pose proof (auth_one_k_evolves _ _ _ _ _ _ _ _ _ _ A E) as E1.
     bdestr ((match r with Some rc0 => rc0 | None => c_PS_SUCCESS end =? c_PS_SUCCESS)%Z).
     + destruct r as [rc0|].
-      * exfalso. b2p. apply auth_one_some_neg in A. destruct A as [A _]. unfold c_PS_SUCCESS in B. lia.
+      * exfalso. b2p. apply auth_one_k_some in A. destruct A as [A _]. unfold c_PS_SUCCESS in B. lia.
       * bdestr (negb (pathlen_check true a sc pl)); [inversion H|].
-        b2p. apply auth_one_none in A. destruct A as [CA L].
+        b2p. apply auth_one_k_none in A; auto. destruct A as [CA L].
         exists a. split; [left; reflexivity|]. split; [|apply pathlen_check_ok; exact B0].
-        unfold step_weak, issued_by_weak. destruct L as [[L1 [L2 L3]]|[_ L]]; [left|right; exact L].
+        unfold ChainSpec.step_weak, ChainSpec.issued_by_weak. destruct L as [[L1 [L2 L3]]|[_ L]]; [left|right; exact L].
         repeat split; auto.
     + bdestr ((match r with Some rc0 => rc0 | None => c_PS_SUCCESS end =? c_PS_MEM_FAIL)%Z).
       * exfalso. b2p. destruct r as [rc0|]; [|discriminate B0].
-        apply auth_one_some_neg in A. destruct A as [_ A]. contradiction.
-      * destruct (IH _ _ _ _ _ _ _ _ _ H Hmore) as [a' [I R]].
+        apply auth_one_k_some in A. destruct A as [_ [A _]]. contradiction.
+      * destruct (IH _ _ _ _ _ _ _ _ _ _ _ H E1 Hmore) as [a' [I R]].
         exists a'. split; [right; exact I|exact R].
 Qed.
 
-Lemma walk_rc0 : forall rest pl sc s idx f pl' below top,
-  walk sig_ok true pl sc s rest idx f = inr (pl', below, top) -> Forall parsed rest ->
-  steps_weak sig_ok (sc :: rest) /\ pathlens pl (sc :: rest) /\ top = last rest sc /\
-  pl' = (pl + Z.of_nat (length rest))%Z.
+Lemma walk_rc0 : forall rest pl sc s idx f k pl' below top k',
+  walk sig_ok true pl sc s rest idx f k = (inr (pl', below, top), k') -> evolves (k_cache k) -> Forall parsed rest ->
+  steps_weak (sc :: rest) /\ pathlens pl (sc :: rest) /\ top = last rest sc /\
+  pl' = (pl + Z.of_nat (length rest))%Z /\ evolves (k_cache k').
 Proof.
-  induction rest as [|ic rest IH]; intros pl sc s idx f pl' below top H HP.
+  induction rest as [|ic rest IH]; intros pl sc s idx f k pl' below top k' H E HP.
   - cbn in H. inversion H; subst. cbn. repeat split; auto. lia.
   - cbn [walk] in H.
-    destruct (auth_one sig_ok true false sc ic s) as [r s'] eqn:A.
+    destruct (auth_one_k sig_ok true false sc ic s (Some ic) k) as [[r s'] k1] eqn:A.
     bdestr ((match r with Some rc => rc | None => c_PS_SUCCESS end <? c_PS_SUCCESS)%Z); [inversion H|].
     bdestr (negb (pathlen_check true ic sc pl)); [inversion H|]. b2p.
     destruct (walk sig_ok true (pl + 1) ic (reset ic) rest (S idx)
-               match r with Some _ => f | None => FChain (S idx) end) as [[[rc' l] f'']|[[pl'' l] top']] eqn:W;
+               match r with Some _ => f | None => FChain (S idx) end k1) as [[[[rc' l] f'']|[[pl'' l] top']] k2] eqn:W;
       inversion H; subst; clear H.
     inversion HP as [|c0 r0 Hic Hrest]; subst.
+    pose proof (auth_one_k_evolves _ _ _ _ _ _ _ _ _ _ A E) as E1.
     destruct r as [rc|].
-    + exfalso. apply auth_one_some_neg in A. destruct A as [A _]. unfold c_PS_SUCCESS in B. lia.
-    + apply auth_one_none in A. destruct A as [CA L].
-      destruct (IH _ _ _ _ _ _ _ _ W Hrest) as [S1 [P1 [T1 PL1]]].
+    + exfalso. apply auth_one_k_some in A. destruct A as [A _]. unfold c_PS_SUCCESS in B. lia.
+    + apply auth_one_k_none in A; auto. destruct A as [CA L].
+      destruct (IH _ _ _ _ _ _ _ _ _ _ W E1 Hrest) as [S1 [P1 [T1 [PL1 E2]]]].
       repeat split.
-      * unfold step_weak, issued_by_weak. destruct L as [[L1 [L2 L3]]|[_ L]]; [left|right; exact L].
+      * unfold ChainSpec.step_weak, ChainSpec.issued_by_weak. destruct L as [[L1 [L2 L3]]|[_ L]]; [left|right; exact L].
         repeat split; auto.
       * exact S1.
       * apply pathlen_check_ok. exact B0.
       * exact P1.
       * subst top. symmetry. apply last_cons.
       * subst pl'. cbn [length]. lia.
+      * exact E2.
 Qed.
 
-Lemma walk_inl_neg : forall rest fx pl sc s idx f rc l f',
-  walk sig_ok fx pl sc s rest idx f = inl (rc, l, f') -> (rc < 0)%Z.
+Lemma walk_inl_neg : forall rest fx pl sc s idx f k rc l f' k',
+  walk sig_ok fx pl sc s rest idx f k = (inl (rc, l, f'), k') -> (rc < 0)%Z.
 Proof.
-  induction rest as [|ic rest IH]; intros fx pl sc s idx f rc l f' H.
+  induction rest as [|ic rest IH]; intros fx pl sc s idx f k rc l f' k' H.
   - cbn in H. inversion H.
   - cbn [walk] in H.
-    destruct (auth_one sig_ok fx false sc ic s) as [r s'] eqn:A.
+    destruct (auth_one_k sig_ok fx false sc ic s (Some ic) k) as [[r s'] k1] eqn:A.
     bdestr ((match r with Some rc => rc | None => c_PS_SUCCESS end <? c_PS_SUCCESS)%Z).
     + inversion H; subst. b2p. unfold c_PS_SUCCESS in B. exact B.
     + bdestr (negb (pathlen_check fx ic sc pl)).
       * inversion H; subst. reflexivity.
       * destruct (walk sig_ok fx (pl + 1) ic (reset ic) rest (S idx)
-               match r with Some _ => f | None => FChain (S idx) end) as [[[rc' l'] f'']|[[pl'' l'] top']] eqn:W;
+               match r with Some _ => f | None => FChain (S idx) end k1) as [[[[rc' l'] f'']|[[pl'' l'] top']] k2] eqn:W;
           inversion H; subst. eapply IH; eauto.
 Qed.
 
@@ -429,12 +604,13 @@ Qed.
 
 (* ------------------------------------------------------------------------------------------ *)
 (* main soundness theorem (repaired code) *)
-Theorem validate_sound : forall rv chain anchors,
+Theorem validate_sound : forall rv chain anchors lg,
   anchors <> [] -> Forall parsed (chain ++ anchors) -> hd_fresh chain ->
-  accepted (validate sig_ok true rv chain anchors) = true ->
-  genuine_path sig_ok rv chain anchors.
+  accepted (validate sig_ok true rv chain anchors (mkK K0 lg)) = true ->
+  genuine_path sig_ok K0 rv chain anchors.
 Proof.
-  intros rv chain anchors Hne HP Hfresh Hacc.
+  intros rv chain anchors lg Hne HP Hfresh Hacc.
+  pose proof evolves_refl as EV.
   apply accepted_iff in Hacc. destruct Hacc as [Hrc Hst].
   destruct chain as [|leaf rest]; [cbn in Hrc; discriminate Hrc|].
   cbn in Hfresh.
@@ -455,15 +631,15 @@ Proof.
   destruct anchors as [|a0 more]; [contradiction|].
   assert (IL : init leaf = reset leaf) by (unfold init, reset; rewrite Hfresh; reflexivity).
   rewrite IL in Hrc, Hst.
-  destruct (walk sig_ok true 0 leaf (reset leaf) rest 0 FNone) as [[[rc l] f]|[[pl below] top]] eqn:W.
+  destruct (walk sig_ok true 0 leaf (reset leaf) rest 0 FNone (mkK K0 lg)) as [[[[rc l] f]|[[pl below] top]] k1] eqn:W.
   - exfalso. apply walk_inl_neg in W. cbn in Hrc. lia.
-  - destruct (anchor_loop sig_ok true rv leaf pl top (init top) (a0 :: more) 0) as [[[rc stop] eku] f] eqn:AL.
+  - destruct (anchor_loop sig_ok true rv leaf pl top (init top) (a0 :: more) 0 k1) as [[[[rc stop] eku] f] k2] eqn:AL.
     cbn in Hrc. subst rc.
     destruct eku.
     { apply anchor_loop_eku in AL. discriminate AL. }
     cbn in Hst. apply Forall_app in Hst. destruct Hst as [Hb Hs]. inversion Hs as [|x y Hstop _]; subst x y.
-    destruct (walk_sound _ _ _ _ _ _ _ _ W HPr Hb) as [S1 [P1 [T1 [PL1 D1]]]].
-    destruct (anchor_loop_sound _ _ _ _ _ _ _ _ _ _ _ AL eq_refl Hstop eq_refl HPa) as [a [Ia [Sa [Pa [Da _]]]]].
+    destruct (walk_sound _ _ _ _ _ _ _ _ _ _ W EV HPr Hb) as [S1 [P1 [T1 [PL1 [D1 E1]]]]].
+    destruct (anchor_loop_sound _ _ _ _ _ _ _ _ _ _ _ _ _ AL eq_refl Hstop eq_refl E1 HPa) as [a [Ia [Sa [Pa [Da _]]]]].
     exists a. split; [exact Ia|].
     unfold path_to. repeat split.
     + apply linked_snoc; [exact S1|]. rewrite <- T1. exact Sa.
@@ -477,12 +653,13 @@ Proof.
 Qed.
 
 (* what return code 0 alone guarantees: the signed path, not the soft checks *)
-Theorem validate_rc0_signed_path : forall rv chain anchors,
+Theorem validate_rc0_signed_path : forall rv chain anchors lg,
   anchors <> [] -> Forall parsed (chain ++ anchors) ->
-  v_rc (validate sig_ok true rv chain anchors) = 0%Z ->
-  signed_path sig_ok chain anchors.
+  v_rc (validate sig_ok true rv chain anchors (mkK K0 lg)) = 0%Z ->
+  signed_path sig_ok K0 chain anchors.
 Proof.
-  intros rv chain anchors Hne HP Hrc.
+  intros rv chain anchors lg Hne HP Hrc.
+  pose proof evolves_refl as EV.
   destruct chain as [|leaf rest]; [cbn in Hrc; discriminate Hrc|].
   apply Forall_app in HP. destruct HP as [HPc HPa].
   inversion HPc as [|x y Hleaf HPr]; subst x y.
@@ -494,12 +671,12 @@ Proof.
     - inversion R; reflexivity. }
   subst o.
   destruct anchors as [|a0 more]; [contradiction|].
-  destruct (walk sig_ok true 0 leaf (init leaf) rest 0 FNone) as [[[rc l] f]|[[pl below] top]] eqn:W.
+  destruct (walk sig_ok true 0 leaf (init leaf) rest 0 FNone (mkK K0 lg)) as [[[[rc l] f]|[[pl below] top]] k1] eqn:W.
   - exfalso. apply walk_inl_neg in W. cbn in Hrc. lia.
-  - destruct (anchor_loop sig_ok true rv leaf pl top (init top) (a0 :: more) 0) as [[[rc stop] eku] f] eqn:AL.
+  - destruct (anchor_loop sig_ok true rv leaf pl top (init top) (a0 :: more) 0 k1) as [[[[rc stop] eku] f] k2] eqn:AL.
     cbn in Hrc. subst rc.
-    destruct (walk_rc0 _ _ _ _ _ _ _ _ _ W HPr) as [S1 [P1 [T1 PL1]]].
-    destruct (anchor_loop_rc0 _ _ _ _ _ _ _ _ _ _ AL HPa) as [a [Ia [Sa Pa]]].
+    destruct (walk_rc0 _ _ _ _ _ _ _ _ _ _ _ W EV HPr) as [S1 [P1 [T1 [PL1 E1]]]].
+    destruct (anchor_loop_rc0 _ _ _ _ _ _ _ _ _ _ _ _ AL E1 HPa) as [a [Ia [Sa Pa]]].
     exists a. split; [exact Ia|]. split.
     + apply linked_snoc; [exact S1|]. rewrite <- T1. exact Sa.
     + apply pathlens_snoc; [exact P1|]. rewrite <- T1. rewrite <- PL1. exact Pa.
@@ -507,41 +684,42 @@ Qed.
 
 (* ------------------------------------------------------------------------------------------ *)
 (* no trust anchors: the chain authenticates itself and must end self-signed *)
-Lemma cm_walk_sound : forall rest sc idx rc l f,
-  cm_walk sig_ok true sc rest idx = (rc, l, f) -> rc = 0%Z -> Forall is_pass l -> Forall parsed rest ->
-  steps sig_ok (sc :: rest) /\ self_signed sig_ok (last rest sc) /\ Forall date_clear (sc :: rest).
+Lemma cm_walk_sound : forall rest sc idx k rc l f k',
+  cm_walk sig_ok true sc rest idx k = (rc, l, f, k') -> rc = 0%Z -> Forall is_pass l -> Forall parsed rest -> evolves (k_cache k) ->
+  steps (sc :: rest) /\ self_signed sig_ok (last rest sc) /\ Forall date_clear (sc :: rest).
 Proof.
-  induction rest as [|ic rest IH]; intros sc idx rc l f H Hrc HPs HPa.
+  induction rest as [|ic rest IH]; intros sc idx k rc l f k' H Hrc HPs HPa E.
   - cbn [cm_walk] in H.
-    destruct (auth_one sig_ok true true sc sc (reset sc)) as [r s'] eqn:A.
+    destruct (auth_one_k sig_ok true true sc sc (reset sc) None k) as [[r s'] k1] eqn:A.
     destruct r as [rc0|]; inversion H; subst.
-    + exfalso. apply auth_one_some_neg in A. lia.
+    + exfalso. apply auth_one_k_some in A. lia.
     + inversion HPs as [|x y Hs _]; subst x y.
-      apply auth_one_pass in A; auto. destruct A as [HD [_ [_ L]]].
+      apply auth_one_k_pass in A; auto. destruct A as [HD [_ [_ L]]].
       destruct L as [[L1 [L2 _]]|[L _]]; [|discriminate L].
       cbn. repeat split; auto.
   - cbn [cm_walk] in H.
-    destruct (auth_one sig_ok true false sc ic (reset sc)) as [r s'] eqn:A.
+    destruct (auth_one_k sig_ok true false sc ic (reset sc) (Some ic) k) as [[r s'] k1] eqn:A.
+    pose proof (auth_one_k_evolves _ _ _ _ _ _ _ _ _ _ A E) as E1.
     destruct r as [rc0|].
-    + inversion H; subst. exfalso. apply auth_one_some_neg in A. lia.
-    + destruct (cm_walk sig_ok true ic rest (S idx)) as [[rc' l'] f'] eqn:W. inversion H; subst.
+    + inversion H; subst. exfalso. apply auth_one_k_some in A. lia.
+    + destruct (cm_walk sig_ok true ic rest (S idx) k1) as [[[rc' l'] f'] k2] eqn:W. inversion H; subst.
       inversion HPs as [|x y Hs Hl]; subst x y.
       inversion HPa as [|x y Hic Hrest]; subst x y.
-      destruct (IH _ _ _ _ _ W eq_refl Hl Hrest) as [S1 [SS D1]].
-      apply auth_one_pass in A; auto. destruct A as [HD [_ [CA L]]].
+      destruct (IH _ _ _ _ _ _ _ W eq_refl Hl Hrest E1) as [S1 [SS D1]].
+      apply auth_one_k_pass in A; auto. destruct A as [HD [_ [CA L]]].
       split; [|split].
       * split; [|exact S1].
-        unfold step, issued_by. destruct L as [[L1 [L2 [L3 L4]]]|[_ L]]; [left|right; exact L].
+        unfold ChainSpec.step, ChainSpec.issued_by. destruct L as [[L1 [L2 [L3 L4]]]|[_ L]]; [left|right; exact L].
         repeat split; auto.
       * rewrite last_cons. exact SS.
       * constructor; [exact HD|exact D1].
 Qed.
 
-Theorem validate_noanchor_sound : forall rv chain,
-  Forall parsed chain -> accepted (validate sig_ok true rv chain []) = true ->
-  self_contained sig_ok chain /\ Forall (valid_now rv) chain.
+Theorem validate_noanchor_sound : forall rv chain lg,
+  Forall parsed chain -> accepted (validate sig_ok true rv chain [] (mkK K0 lg)) = true ->
+  self_contained sig_ok K0 chain /\ Forall (valid_now rv) chain.
 Proof.
-  intros rv chain HP Hacc.
+  intros rv chain lg HP Hacc.
   apply accepted_iff in Hacc. destruct Hacc as [Hrc Hst].
   destruct chain as [|leaf rest]; [cbn in Hrc; discriminate Hrc|].
   inversion HP as [|x y Hleaf HPr]; subst x y.
@@ -553,9 +731,9 @@ Proof.
       split; auto. intros _. eapply Forall_impl; [|exact F]. intros c [X _]; exact X.
     - inversion R. split; auto. discriminate. }
   destruct RV as [E RV]. subst o.
-  destruct (cm_walk sig_ok true leaf rest 0) as [[rc l] f] eqn:W.
+  destruct (cm_walk sig_ok true leaf rest 0 (mkK K0 lg)) as [[[rc l] f] k1] eqn:W.
   cbn in Hrc, Hst. subst rc.
-  destruct (cm_walk_sound _ _ _ _ _ _ W eq_refl Hst HPr) as [S1 [SS D1]].
+  destruct (cm_walk_sound _ _ _ _ _ _ _ _ W eq_refl Hst HPr evolves_refl) as [S1 [SS D1]].
   split.
   - unfold self_contained. split; [exact S1|]. rewrite last_cons. exact SS.
   - apply Forall_forall. intros c Hc. split.
@@ -598,41 +776,73 @@ Proof.
   bdestr (c_pre3280 ic <? 0)%Z; b2p; [lia|]. reflexivity.
 Qed.
 
-Lemma auth_one_link : forall sc ic s,
-  issued_by sig_ok sc ic -> link_supported sc ic -> st s = 0%Z -> has_flag (fl s) DATE = false ->
-  auth_one sig_ok true false sc ic s = (None, set_st s PASS).
+Lemma auth_one_link : forall sc ic s rs,
+  c_iss sc = c_subj ic -> sig_ok (c_key ic) (c_tbs sc) (c_sig sc) (c_alg sc) = true -> is_ca ic ->
+  link_supported sc ic -> rs <> REVOKED -> st s = 0%Z -> has_flag (fl s) DATE = false ->
+  auth_one sig_ok true false sc ic s rs = (None, set_st s PASS).
 Proof.
-  intros sc ic s [I1 [I2 [I3 [I4 I5]]]] [L1 L2] H0 HD. unfold auth_one.
+  intros sc ic s rs I1 I2 I3 [L1 L2] I5 H0 HD. unfold auth_one, bc_fail.
   unfold is_ca in I3. rewrite I3, Z.eqb_refl. cbn [negb andb]. rewrite andb_false_r. cbn [andb].
   rewrite I1, N.eqb_refl. cbn [negb].
-  unfold not_revoked in I5. apply Z.eqb_neq in I5. rewrite I5, andb_false_r.
+  apply Z.eqb_neq in I5. rewrite I5, andb_false_r.
   rewrite I2. cbn [negb].
   rewrite (aki_check_ok _ _ _ L1), (ku_check_ok _ _ L2).
   rewrite (tail_clean _ H0 HD). reflexivity.
 Qed.
 
-Lemma auth_one_copy : forall sc ic s,
-  same_cert sc ic -> c_iss sc <> c_subj ic -> is_ca ic -> st s = 0%Z -> has_flag (fl s) DATE = false ->
-  auth_one sig_ok true false sc ic s = (None, set_st s PASS).
+Lemma auth_one_k_link : forall sc ic s p k,
+  issued_by sc ic -> link_supported sc ic -> not_listed sc -> evolves (k_cache k) ->
+  st s = 0%Z -> has_flag (fl s) DATE = false ->
+  exists k', auth_one_k sig_ok true false sc ic s p k = (None, set_st s PASS, k') /\ evolves (k_cache k').
 Proof.
-  intros sc ic s [S1 S2] Hdn Hca H0 HD. unfold auth_one.
+  intros sc ic s p k [I1 [I2 [I3 [I4 I5]]]] L NL E H0 HD. unfold auth_one_k, f_USE_CRL. cbn [andb].
+  assert (R : reaches_crl false sc ic = true).
+  { apply reaches_intro; auto. unfold bc_fail. unfold is_ca in I3. rewrite I3, Z.eqb_refl. cbn [negb]. rewrite andb_false_r. reflexivity. }
+  rewrite R.
+  destruct (crl_lookup sig_ok (k_cache k) sc p) as [rs K'] eqn:LK.
+  pose proof (lookup_not_listed _ sc p E NL) as X. rewrite LK in X. cbn [fst] in X.
+  pose proof (lookup_evolves _ sc p E) as Y. rewrite LK in Y. cbn [snd] in Y.
+  rewrite (auth_one_link sc ic s rs I1 I2 I3 L X H0 HD).
+  eexists. split; [reflexivity|exact Y].
+Qed.
+
+Lemma auth_one_k_copy : forall sc ic s p k,
+  same_cert sc ic -> c_iss sc <> c_subj ic -> is_ca ic -> st s = 0%Z -> has_flag (fl s) DATE = false ->
+  auth_one_k sig_ok true false sc ic s p k = (None, set_st s PASS, k).
+Proof.
+  intros sc ic s p k [S1 S2] Hdn Hca H0 HD. unfold auth_one_k, reaches_crl.
+  apply N.eqb_neq in Hdn. rewrite Hdn, !andb_false_r.
+  unfold auth_one, bc_fail.
   unfold is_ca in Hca. rewrite Hca, Z.eqb_refl. cbn [negb andb]. rewrite andb_false_r. cbn [andb].
-  apply N.eqb_neq in Hdn. rewrite Hdn. cbn [negb].
+  rewrite Hdn. cbn [negb].
   unfold shortcut. rewrite S1, S2, !N.eqb_refl. cbn [negb andb].
   rewrite (tail_clean _ H0 HD). reflexivity.
 Qed.
 
-Lemma auth_one_unclaimed : forall sc a s, ~ claims sig_ok sc a ->
-  exists rc s1, auth_one sig_ok true false sc a s = (Some rc, s1).
+Lemma auth_one_unclaimed : forall sc a s rs, ~ claims sig_ok sc a ->
+  exists rc s1, auth_one sig_ok true false sc a s rs = (Some rc, s1).
 Proof.
-  intros sc a s H. unfold auth_one.
-  destruct ((c_ver a >? 1)%Z && negb (c_ca a =? c_CA_TRUE)%Z && negb false); [eauto|].
+  intros sc a s rs H. unfold auth_one.
+  destruct (bc_fail false a); [eauto|].
   bdestr (negb (c_iss sc =? c_subj a)%N).
   - bdestr (shortcut true false sc a); [|eauto].
     exfalso. apply H. right. unfold shortcut in B0. b2p. split; auto.
-  - b2p. destruct (f_USE_CRL && (c_rev sc =? c_CRL_CHECK_REVOKED_AND_AUTHENTICATED)%Z); [eauto|].
+  - b2p. destruct (f_USE_CRL && (rs =? c_CRL_CHECK_REVOKED_AND_AUTHENTICATED)%Z); [eauto|].
     bdestr (negb (sig_ok (c_key a) (c_tbs sc) (c_sig sc) (c_alg sc))); [eauto|].
     exfalso. apply H. left. b2p. split; auto.
+Qed.
+
+Lemma auth_one_k_unclaimed : forall sc a s p k, ~ claims sig_ok sc a -> evolves (k_cache k) ->
+  exists rc s1 k1, auth_one_k sig_ok true false sc a s p k = (Some rc, s1, k1) /\ evolves (k_cache k1).
+Proof.
+  intros sc a s p k H E.
+  destruct (auth_one_k sig_ok true false sc a s p k) as [[r s1] k1] eqn:A.
+  pose proof (auth_one_k_evolves _ _ _ _ _ _ _ _ _ _ A E) as E1.
+  unfold auth_one_k in A.
+  destruct (f_USE_CRL && reaches_crl false sc a).
+  - destruct (crl_lookup sig_ok (k_cache k) sc p) as [rs K'].
+    destruct (auth_one_unclaimed sc a s rs H) as [rc [s2 X]]. rewrite X in A. inversion A; subst. eauto.
+  - destruct (auth_one_unclaimed sc a s 0%Z H) as [rc [s2 X]]. rewrite X in A. inversion A; subst. eauto.
 Qed.
 
 Lemma last_in : forall (l : list cert) d, l <> [] -> In (last l d) l.
@@ -642,37 +852,44 @@ Proof.
   right. change (last (x :: y :: l) d) with (last (y :: l) d). apply IH. discriminate.
 Qed.
 
-Lemma walk_complete' : forall rest pl sc idx f,
-  links_supported sig_ok (sc :: rest) -> pathlens pl (sc :: rest) -> Forall date_clear (removelast (sc :: rest)) ->
-  walk sig_ok true pl sc (reset sc) rest idx f =
-  inr ((pl + Z.of_nat (length rest))%Z, map pass_state (removelast (sc :: rest)), last rest sc).
+Lemma walk_complete' : forall rest pl sc idx f k,
+  links_supported sig_ok K0 (sc :: rest) -> pathlens pl (sc :: rest) -> Forall date_clear (removelast (sc :: rest)) ->
+  Forall not_listed (sc :: rest) -> evolves (k_cache k) ->
+  exists k', walk sig_ok true pl sc (reset sc) rest idx f k =
+    (inr ((pl + Z.of_nat (length rest))%Z, map pass_state (removelast (sc :: rest)), last rest sc), k') /\ evolves (k_cache k').
 Proof.
-  induction rest as [|ic rest IH]; intros pl sc idx f HL HP HD.
-  - cbn. rewrite Z.add_0_r. reflexivity.
+  induction rest as [|ic rest IH]; intros pl sc idx f k HL HP HD HN E.
+  - cbn. rewrite Z.add_0_r. eauto.
   - destruct HL as [[L1 L2] L3]. destruct HP as [P1 P2].
     change (removelast (sc :: ic :: rest)) with (sc :: removelast (ic :: rest)) in *.
     inversion HD as [|x y D1 D2]; subst x y.
+    inversion HN as [|x y N1 N2]; subst x y.
     cbn [walk].
-    rewrite (auth_one_link sc ic (reset sc) L1 L2 eq_refl D1).
+    destruct (auth_one_k_link sc ic (reset sc) (Some ic) k L1 L2 N1 E eq_refl D1) as [k1 [A E1]].
+    rewrite A.
     change ((c_PS_SUCCESS <? c_PS_SUCCESS)%Z) with false. cbn iota.
     rewrite (pathlen_ok_check _ _ _ P1). cbn [negb].
-    rewrite (IH (pl + 1)%Z ic (S idx) (FChain (S idx)) L3 P2 D2).
-    rewrite last_cons. cbn [map length]. f_equal. f_equal. f_equal. lia.
+    destruct (IH (pl + 1)%Z ic (S idx) (FChain (S idx)) k1 L3 P2 D2 N2 E1) as [k2 [W E2]].
+    rewrite W.
+    rewrite last_cons. cbn [map length]. exists k2. split; [|exact E2].
+    f_equal. f_equal. f_equal. f_equal. lia.
 Qed.
 
-Lemma anchor_loop_complete : forall before rv leaf pl top s a after i,
-  fl s = c_fl0 top -> date_clear top -> Forall (fun a' => ~ claims sig_ok top a') before ->
-  top_supported sig_ok top a -> pathlen_ok top a pl -> (rv = true -> valid_now rv a) -> eku_ok leaf ->
-  anchor_loop sig_ok true rv leaf pl top s (before ++ a :: after) i =
-  (0%Z, pass_state top, false, FAnchor (i + length before)).
+Lemma anchor_loop_complete : forall before rv leaf pl top s a after i k,
+  fl s = c_fl0 top -> date_clear top -> not_listed top -> evolves (k_cache k) ->
+  Forall (fun a' => ~ claims sig_ok top a') before ->
+  top_supported sig_ok K0 top a -> pathlen_ok top a pl -> (rv = true -> valid_now rv a) -> eku_ok leaf ->
+  exists k', anchor_loop sig_ok true rv leaf pl top s (before ++ a :: after) i k =
+  (0%Z, pass_state top, false, FAnchor (i + length before), k').
 Proof.
-  induction before as [|b before IH]; intros rv leaf pl top s a after i Hfl HD HB HT HPl HV HE.
+  induction before as [|b before IH]; intros rv leaf pl top s a after i k Hfl HD HNL E HB HT HPl HV HE.
   - cbn [app anchor_loop].
-    assert (A : auth_one sig_ok true false top a (set_st s 0) = (None, set_st (set_st s 0) PASS)).
-    { destruct HT as [[T1 T2]|[T1 [T2 [T3 T4]]]].
-      - apply auth_one_link; auto. cbn. rewrite Hfl. exact HD.
-      - apply auth_one_copy; auto. cbn. rewrite Hfl. exact HD. }
-    rewrite A. rewrite Z.eqb_refl.
+    assert (A : exists k', auth_one_k sig_ok true false top a (set_st s 0) None k = (None, set_st (set_st s 0) PASS, k')).
+    { destruct HT as [[T1 T2]|[T1 [T2 T3]]].
+      - destruct (auth_one_k_link top a (set_st s 0) None k T1 T2 HNL E eq_refl) as [k' [X _]]; eauto.
+        cbn. rewrite Hfl. exact HD.
+      - exists k. apply auth_one_k_copy; auto. cbn. rewrite Hfl. exact HD. }
+    destruct A as [k' A]. rewrite A. rewrite Z.eqb_refl.
     rewrite (pathlen_ok_check _ _ _ HPl). cbn [negb].
     assert (E1 : rv && (c_date_now a <? 0)%Z = false).
     { destruct rv; [|reflexivity]. destruct (HV eq_refl) as [_ V]. rewrite (V eq_refl). reflexivity. }
@@ -683,18 +900,18 @@ Proof.
     assert (E3 : eku_bad leaf = false).
     { unfold eku_bad. unfold eku_ok in HE. destruct (c_eku_crit leaf); [|reflexivity].
       apply N.eqb_neq. apply HE. reflexivity. }
-    rewrite E3. unfold pass_state, set_st. cbn. rewrite Hfl, Nat.add_0_r. reflexivity.
+    rewrite E3. unfold pass_state, set_st. cbn. rewrite Hfl, Nat.add_0_r. eauto.
   - inversion HB as [|x y HB1 HB2]; subst x y.
     cbn [app anchor_loop].
-    destruct (auth_one_unclaimed top b (set_st s 0) HB1) as [rc [s1 A]].
+    destruct (auth_one_k_unclaimed top b (set_st s 0) None k HB1 E) as [rc [s1 [k1 [A EK]]]].
     rewrite A.
-    destruct (auth_one_some_neg _ _ _ _ _ _ _ A) as [N1 N2].
+    destruct (auth_one_k_some _ _ _ _ _ _ _ _ _ _ A) as [N1 [N2 N3]].
     assert (E1 : (rc =? c_PS_SUCCESS)%Z = false) by (apply Z.eqb_neq; unfold c_PS_SUCCESS; lia).
     assert (E2 : (rc =? c_PS_MEM_FAIL)%Z = false) by (apply Z.eqb_neq; exact N2).
     rewrite E1, E2.
-    rewrite (IH rv leaf pl top s1 a after (S i)); auto.
-    + cbn [length]. f_equal. f_equal. lia.
-    + rewrite (auth_one_some_fl _ _ _ _ _ _ _ A). cbn. exact Hfl.
+    destruct (IH rv leaf pl top s1 a after (S i) k1) as [k' X]; auto.
+    + rewrite N3. cbn. exact Hfl.
+    + rewrite X. exists k'. cbn [length]. replace (S i + length before) with (i + S (length before)) by lia. reflexivity.
 Qed.
 
 Lemma reval_complete : forall cs, Forall (valid_now true) cs -> reval_chain cs = (None, map init cs).
@@ -707,11 +924,11 @@ Qed.
 Lemma Forall_pass_states : forall l, forallb (fun s => (st s =? PASS)%Z) (map pass_state l) = true.
 Proof. induction l; cbn; auto. Qed.
 
-Theorem validate_complete : forall rv chain before a after,
-  supported_path sig_ok rv chain before a ->
-  accepted (validate sig_ok true rv chain (before ++ a :: after)) = true.
+Theorem validate_complete : forall rv chain before a after lg,
+  supported_path sig_ok K0 rv chain before a ->
+  accepted (validate sig_ok true rv chain (before ++ a :: after) (mkK K0 lg)) = true.
 Proof.
-  intros rv chain before a after [leaf [below [top [Hc [Ht [HL [HT [HP [HV [HVa [HE [Hst HB]]]]]]]]]]]].
+  intros rv chain before a after lg [leaf [below [top [Hc [Ht [HL [HT [HP [HV [HNL [HVa [HE [Hst HB]]]]]]]]]]]]].
   subst chain.
   assert (RV : (if rv then reval_chain (leaf :: below) else (None, map init (leaf :: below))) = (None, map init (leaf :: below))).
   { destruct rv; [|reflexivity]. apply reval_complete. exact HV. }
@@ -739,17 +956,41 @@ Proof.
       replace (k + Z.of_nat (length (c :: below)))%Z with (k + 1 + Z.of_nat (length below))%Z by (cbn [length]; lia).
       exact Q2. }
   destruct PL as [PL1 PL2].
-  rewrite (walk_complete' below 0 leaf 0 FNone HL PL1 DCr).
+  destruct (walk_complete' below 0 leaf 0 FNone (mkK K0 lg) HL PL1 DCr HNL evolves_refl) as [k1 [W E1]].
+  rewrite W.
   assert (Ttop : last below leaf = top) by (rewrite <- Ht; symmetry; apply last_cons).
   rewrite Ttop.
-  assert (Dtop : date_clear top).
-  { rewrite Forall_forall in DC. apply DC. rewrite <- Ht. apply last_in. discriminate. }
-  rewrite (anchor_loop_complete before rv leaf _ top (init top) a after 0 eq_refl Dtop HB HT PL2 HVa HE).
+  assert (Itop : In top (leaf :: below)) by (rewrite <- Ht; apply last_in; discriminate).
+  assert (Dtop : date_clear top) by (rewrite Forall_forall in DC; apply DC; exact Itop).
+  assert (Ntop : not_listed top) by (rewrite Forall_forall in HNL; apply HNL; exact Itop).
+  destruct (anchor_loop_complete before rv leaf (0 + Z.of_nat (length below))%Z top (init top) a after 0 k1 eq_refl Dtop Ntop E1 HB HT PL2 HVa HE) as [k2 AL].
+  rewrite AL.
   unfold accepted. cbn [v_rc v_states]. rewrite Z.eqb_refl. cbn [andb].
   rewrite forallb_app. rewrite Forall_pass_states. cbn. reflexivity.
 Qed.
 
+
+(* with a tidy cache (one CRL per issuer name, none stale) "not revoked" is the property's clause verbatim *)
+Lemma find_unique : forall (l : list crl) r v, NoDup (map r_iss l) -> In r l -> r_iss r = v ->
+  find (fun x => (r_iss x =? v)%N) l = Some r.
+Proof.
+  induction l as [|x l IH]; intros r v ND HI Hv; [contradiction|].
+  cbn [find]. inversion ND as [|y m Hnin ND']; subst y m.
+  destruct HI as [HI|HI].
+  - subst x. rewrite Hv, N.eqb_refl. reflexivity.
+  - destruct (r_iss x =? v)%N eqn:B; [|apply IH; auto].
+    exfalso. apply N.eqb_eq in B. apply Hnin. rewrite B, <- Hv. apply in_map. exact HI.
+Qed.
+
+Theorem tidy_not_revoked : forall c, cache_tidy K0 -> not_revoked c -> ~ revoked_by_loaded_crl K0 c.
+Proof.
+  intros c [ND FC] NR [r [HI [Hi [Ha Hl]]]]. apply NR. exists r.
+  split; [unfold crl_for; apply find_unique; auto|].
+  split; [exact Ha|]. split; [|exact Hl]. rewrite Forall_forall in FC. exact (FC r HI).
+Qed.
+
 End Proofs.
+
 
 (* ------------------------------------------------------------------------------------------ *)
 (* parse-time gate *)
@@ -789,17 +1030,17 @@ Qed.
 Definition no_sig : N -> N -> N -> N -> bool := fun _ _ _ _ => false.
 Definition all_sig : N -> N -> N -> N -> bool := fun _ _ _ _ => true.
 
-(*                       subj iss tbs sig alg  key ver ca  pathlen ku  eku crit  ak    sk   rev p3 dn fl st *)
-Definition w_leaf   := mkCert 1  9  10  21 1679 5   2  0   (-1)   224 6  false 0 0   0 0   6   0  0  0  0.
-Definition w_anchor := mkCert 2  2  11  21 1679 7   2  255 (-1)   6   0  false 0 0   0 0   6   0  0  0  0.
+(*                       subj iss tbs sig alg  key ver ca  pathlen ku  eku crit  ak    sk   serial crldist p3 dn fl st *)
+Definition w_leaf := mkCert 1 9 10 21 1679 5 2 0 (-1) 224 6 false 0 0 0 0 [1%N] false 0 0 0 0.
+Definition w_anchor := mkCert 2 2 11 21 1679 7 2 255 (-1) 6 0 false 0 0 0 0 [2%N] false 0 0 0 0.
 
 (* pinned code: a leaf carrying a copy of the trust anchor's signature BYTES under a foreign issuer
    name is accepted even when no signature in the world verifies *)
 Theorem validate_sound_pinned_refuted :
   exists sig_ok rv chain anchors,
     anchors <> [] /\ Forall parsed (chain ++ anchors) /\ hd_fresh chain /\
-    accepted (validate sig_ok false rv chain anchors) = true /\
-    ~ genuine_path sig_ok rv chain anchors.
+    accepted (validate sig_ok false rv chain anchors (mkK [] [])) = true /\
+    ~ genuine_path sig_ok [] rv chain anchors.
 Proof.
   exists no_sig, false, [w_leaf], [w_anchor].
   split; [discriminate|]. split; [repeat constructor|]. split; [reflexivity|].
@@ -808,13 +1049,13 @@ Proof.
   destruct S as [[_ [S _]]|[S _]]; vm_compute in S; discriminate S.
 Qed.
 
-Example witness_rejected_by_repaired_code : accepted (validate no_sig true false [w_leaf] [w_anchor]) = false.
+Example witness_rejected_by_repaired_code : accepted (validate no_sig true false [w_leaf] [w_anchor] (mkK [] [])) = false.
 Proof. vm_compute. reflexivity. Qed.
 
 (* pinned code, no trust anchors: any single certificate "is self-signed" *)
 Theorem validate_noanchor_pinned_refuted :
   exists sig_ok rv chain, Forall parsed chain /\
-    accepted (validate sig_ok false rv chain []) = true /\ ~ self_contained sig_ok chain.
+    accepted (validate sig_ok false rv chain [] (mkK [] [])) = true /\ ~ self_contained sig_ok [] chain.
 Proof.
   exists no_sig, false, [w_leaf]. split; [repeat constructor|]. split; [vm_compute; reflexivity|].
   intros [_ [S _]]. vm_compute in S. discriminate S.
@@ -822,13 +1063,13 @@ Qed.
 
 (* return code 0 does NOT mean every certificate passed (the lemma C04 would like):
    the date / keyUsage / key-identifier verdicts only live in authStatus *)
-Definition w_leaf_dated := mkCert 1 2 10 20 1679 5 2 0 (-1) 224 6 false 0 0 0 0 6 0 0 8 0.
-Definition w_root := mkCert 2 2 11 21 1679 7 2 255 (-1) 6 0 false 0 0 0 0 6 0 0 0 0.
+Definition w_leaf_dated := mkCert 1 2 10 20 1679 5 2 0 (-1) 224 6 false 0 0 0 0 [1%N] false 0 0 8 0.
+Definition w_root := mkCert 2 2 11 21 1679 7 2 255 (-1) 6 0 false 0 0 0 0 [2%N] false 0 0 0 0.
 Theorem status_consistent_refuted :
   exists sig_ok rv chain anchors,
     anchors <> [] /\ Forall parsed (chain ++ anchors) /\ hd_fresh chain /\
-    v_rc (validate sig_ok true rv chain anchors) = 0%Z /\
-    ~ Forall (fun s => st s = c_PS_CERT_AUTH_PASS) (v_states (validate sig_ok true rv chain anchors)).
+    v_rc (validate sig_ok true rv chain anchors (mkK [] [])) = 0%Z /\
+    ~ Forall (fun s => st s = c_PS_CERT_AUTH_PASS) (v_states (validate sig_ok true rv chain anchors (mkK [] []))).
 Proof.
   exists all_sig, false, [w_leaf_dated], [w_root].
   split; [discriminate|]. split; [repeat constructor|]. split; [reflexivity|].
@@ -840,28 +1081,38 @@ Qed.
 (* non-vacuity: the hypotheses of the two main theorems are satisfiable together *)
 Definition key_sig : N -> N -> N -> N -> bool :=   (* TBS t is signed by key t+100, signature id 2t *)
   fun key tbs sg alg => (key =? tbs + 100)%N && (sg =? 2 * tbs)%N && (alg =? 1679)%N.
-(*                      subj iss tbs sig alg  key ver ca  pathlen ku  eku crit  ak    sk     rev p3 dn fl st *)
-Definition e_leaf  := mkCert 1  2  10  20 1679 5   2  0   (-1)   224 6  true  20 51 20 50  6   0  0  0  0.
-Definition e_int   := mkCert 2  3  11  22 1679 110 2  255 0      6   0  false 20 52 20 51  6   0  0  0  0.
-Definition e_root  := mkCert 3  3  12  24 1679 111 2  255 1      4   0  false 0  0  20 52  6   0  0  0  0.
-Definition e_decoy := mkCert 3  3  13  26 1679 999 2  255 (-1)   6   0  false 0  0  20 52  6   0  0  0  0.
+(*                      subj iss tbs sig alg  key ver ca  pathlen ku  eku crit  ak    sk     serial crldist p3 dn fl st *)
+Definition e_leaf := mkCert 1 2 10 20 1679 5 2 0 (-1) 224 6 true 20 51 20 50 [0%N;196%N] false 0 0 0 0.
+Definition e_int := mkCert 2 3 11 22 1679 110 2 255 0 6 0 false 20 52 20 51 [5%N] false 0 0 0 0.
+Definition e_root := mkCert 3 3 12 24 1679 111 2 255 1 4 0 false 0 0 20 52 [6%N] false 0 0 0 0.
+Definition e_decoy := mkCert 3 3 13 26 1679 999 2 255 (-1) 6 0 false 0 0 20 52 [7%N] false 0 0 0 0.
 
-Example supported_example : supported_path key_sig true [e_leaf; e_int] [e_decoy] e_root.
+(* a cache that speaks for both issuers: leaf's issuer (name 2) has an authenticated current CRL that lists
+   other serials - among them C4, which is not the leaf's 00 C4 -, the intermediate's issuer an unauthenticated one *)
+Definition e_crl2 := mkCrl 0 2 50 60 1679 true false 0 [[196%N]; [0%N; 197%N]; []].
+Definition e_crl3 := mkCrl 1 3 51 61 1679 false false 0 [[9%N]].
+Definition e_K := [e_crl2; e_crl3].
+
+Example supported_example : supported_path key_sig e_K true [e_leaf; e_int] [e_decoy] e_root.
 Proof.
   exists e_leaf, [e_int], e_int.
   split; [reflexivity|]. split; [reflexivity|].
+  assert (NR : forall c, c = e_leaf \/ c = e_int -> not_revoked e_K c).
+  { intros c Hc [r [F [_ [_ L]]]]. destruct Hc; subst c; vm_compute in F; inversion F; subst r; vm_compute in L; discriminate L. }
   split.
   { cbn. split; [|exact I]. split.
-    - unfold issued_by, is_ca, ku_certsign, not_revoked. cbn. repeat split; try discriminate; auto.
+    - unfold issued_by, is_ca, ku_certsign. cbn. repeat split; try discriminate; auto.
     - unfold link_supported, aki_ok, ku_supported. cbn. split; [right; left; auto|left; discriminate]. }
   split.
   { left. split.
-    - unfold issued_by, is_ca, ku_certsign, not_revoked. cbn. repeat split; try discriminate; auto.
+    - unfold issued_by, is_ca, ku_certsign. cbn. repeat split; try discriminate; auto.
     - unfold link_supported, aki_ok, ku_supported. cbn. split; [right; left; auto|left; discriminate]. }
   split.
   { cbn. unfold pathlen_ok, depth_below. cbn. repeat split; right; lia. }
   split.
   { repeat constructor; cbn; auto. }
+  split.
+  { repeat constructor; intros r F L; vm_compute in F; inversion F; subst r; vm_compute in L; discriminate L. }
   split.
   { intros _. split; cbn; auto. }
   split.
@@ -872,5 +1123,76 @@ Proof.
 Qed.
 
 Example supported_example_accepted :
-  accepted (validate key_sig true true [e_leaf; e_int] [e_decoy; e_root]) = true.
+  accepted (validate key_sig true true [e_leaf; e_int] [e_decoy; e_root] (mkK e_K [])) = true.
 Proof. vm_compute. reflexivity. Qed.
+
+(* ------------------------------------------------------------------------------------------ *)
+(* revocation witnesses *)
+(* the leaf's serial 00 C4 listed in the authenticated CRL of its issuer: refused *)
+Definition r_listing := mkCrl 0 2 50 60 1679 true false 0 [[1%N]; [0%N; 196%N]].
+Example revoked_leaf_refused :
+  let r := validate key_sig true false [e_leaf; e_int] [e_root] (mkK [r_listing] []) in
+  accepted r = false /\ v_rc r = c_PS_CERT_AUTH_FAIL_REVOKED /\ k_log (v_k r) = [c_CRL_CHECK_REVOKED_AND_AUTHENTICATED].
+Proof. vm_compute. auto. Qed.
+Example revoked_in_example : revoked_in [r_listing] e_leaf.
+Proof. exists r_listing. repeat split; try reflexivity; cbn; lia. Qed.
+(* an unauthenticated CRL is authenticated on the way by the chain parent, when that parent signed it *)
+Definition r_by_int := mkCrl 0 2 10 20 1679 false false 0 [[0%N; 196%N]].   (* TBS 10 / signature 20: verifies under key 110 *)
+Example unauthenticated_crl_adopted :
+  let r := validate key_sig true false [e_leaf; e_int] [e_root] (mkK [r_by_int] []) in
+  accepted r = false /\ map r_auth (k_cache (v_k r)) = [true].
+Proof. vm_compute. auto. Qed.
+
+(* the literal clause "no certificate is revoked by ANY authenticated CRL the application loaded" needs the tidy cache:
+   only the first CRL under an issuer name is consulted, and a CRL past its nextUpdate is not consulted at all *)
+Definition r_shadow := mkCrl 0 2 52 62 1679 false false 0 [].
+Definition r_listing1 := mkCrl 1 2 50 60 1679 true false 0 [[0%N; 196%N]].
+Definition r_stale := mkCrl 0 2 50 60 1679 true false (-1) [[0%N; 196%N]].
+Theorem revocation_shadowed_refuted :
+  exists sig_ok K rv chain anchors,
+    anchors <> [] /\ Forall parsed (chain ++ anchors) /\ hd_fresh chain /\ Forall crl_current K /\
+    accepted (validate sig_ok true rv chain anchors (mkK K [])) = true /\
+    exists c, In c chain /\ revoked_by_loaded_crl K c.
+Proof.
+  exists key_sig, [r_shadow; r_listing1], false, [e_leaf; e_int], [e_root].
+  split; [discriminate|]. split; [repeat constructor|]. split; [reflexivity|].
+  split; [repeat constructor; cbn; lia|].
+  split; [vm_compute; reflexivity|].
+  exists e_leaf. split; [left; reflexivity|]. exists r_listing1. repeat split; try reflexivity; cbn; auto.
+Qed.
+Theorem revocation_stale_refuted :
+  exists sig_ok K rv chain anchors,
+    anchors <> [] /\ Forall parsed (chain ++ anchors) /\ hd_fresh chain /\ NoDup (map r_iss K) /\
+    accepted (validate sig_ok true rv chain anchors (mkK K [])) = true /\
+    exists c, In c chain /\ revoked_by_loaded_crl K c.
+Proof.
+  exists key_sig, [r_stale], false, [e_leaf; e_int], [e_root].
+  split; [discriminate|]. split; [repeat constructor|]. split; [reflexivity|].
+  split; [repeat constructor; intros []|].
+  split; [vm_compute; reflexivity|].
+  exists e_leaf. split; [left; reflexivity|]. exists r_stale. repeat split; try reflexivity; cbn; auto.
+Qed.
+
+(* ------------------------------------------------------------------------------------------ *)
+(* the revocation clause on its own, for a tidy cache *)
+Lemma linked_impl : forall (R S : cert -> cert -> Prop) p, (forall a b, R a b -> S a b) -> linked R p -> linked S p.
+Proof.
+  intros R S p H. induction p as [|a p IH]; [auto|].
+  destruct p as [|b p]; [auto|]. intros [H1 H2]. split; [apply H; exact H1|apply IH; exact H2].
+Qed.
+
+Definition step_unrevoked (sig_ok : N -> N -> N -> N -> bool) (K : list crl) (sc ic : cert) : Prop :=
+  same_cert sc ic \/ (issued_by sig_ok K sc ic /\ ~ revoked_by_loaded_crl K sc).
+
+Theorem validate_unrevoked : forall (sig_ok : N -> N -> N -> N -> bool) K rv chain anchors lg,
+  anchors <> [] -> Forall parsed (chain ++ anchors) -> hd_fresh chain -> cache_tidy K ->
+  accepted (validate sig_ok true rv chain anchors (mkK K lg)) = true ->
+  exists a, In a anchors /\ linked (step_unrevoked sig_ok K) (chain ++ [a]).
+Proof.
+  intros sig_ok K rv chain anchors lg H1 H2 H3 HT H4.
+  destruct (validate_sound sig_ok K rv chain anchors lg H1 H2 H3 H4) as [a [Ia [S _]]].
+  exists a. split; [exact Ia|].
+  eapply linked_impl; [|exact S].
+  intros x y [I|C]; [right|left; exact C]. split; [exact I|].
+  apply tidy_not_revoked; [exact HT|]. destruct I as [_ [_ [_ [_ NR]]]]. exact NR.
+Qed.
